@@ -16,7 +16,7 @@ var run *ev.Run
 func TestMain(m *testing.M) {
 	projsim.MaybeChild()
 	run = ev.Start("C02", "exploration",
-		"rapid draws a project as in C01 (no 'always' targets) and a target X. X is built successfully in a fresh child process; then 0-4 no-op-class "+
+		"rapid draws a project as in C01 (no 'always' targets; in a quarter of the cases one or two declared source files do not exist on disk) and a target X. X is built successfully in a fresh child process; then 0-4 no-op-class "+
 			"operations are applied: nothing, same-content rewrite, delete+recreate with the same content (also inside a source directory), an edit of a "+
 			"source or of a target (constant, body, source) outside X's closure in a package whose BUILD file holds no target of the closure, comment / "+
 			"blank-line / docstring insertion anywhere (X's own BUILD file and helper modules included), an unrelated file, a dry run, a garbage "+
@@ -37,6 +37,7 @@ type Case struct {
 	Order1 []int          `json:"order1"` // package permutation for the first build (empty = free)
 	Order2 []int          `json:"order2"` // for the rebuild
 	Index  bool           `json:"index"`  // rebuild of a second kind: load with PreferIndex first (as the CLI's list commands do) between the builds
+	Absent []int          `json:"absent,omitempty"` // selectors of declared source files that do not exist on disk (from the start)
 }
 
 func order(m *projsim.Model, perm []int) []string {
@@ -69,6 +70,20 @@ func exec(c Case) (v ev.Verdict) {
 		model.Targets[i].Always = false
 	}
 	model.Gated = true
+	if len(c.Absent) > 0 {
+		var files []string
+		for f := range model.Files {
+			if f != "junk.txt" {
+				files = append(files, f)
+			}
+		}
+		sort.Strings(files)
+		for _, a := range c.Absent {
+			if len(files) > 0 {
+				delete(model.Files, files[a%len(files)])
+			}
+		}
+	}
 	sim, err := projsim.NewSim(model)
 	if err != nil {
 		return ev.Verdict{Skip: "mkdtemp"}
@@ -173,6 +188,9 @@ func exec(c Case) (v ev.Verdict) {
 		return ev.Failf("rebuild-failed", "rebuild of %s failed: load=%q run=%q panic=%q", label, second.LoadErr, second.RunErr, second.Panic)
 	}
 	v.Classes = classes
+	if len(c.Absent) > 0 {
+		v.Classes = append(v.Classes, "declared-source-absent")
+	}
 	if len(c.Order2) > 0 {
 		v.Classes = append(v.Classes, "ordered-load")
 	} else {
@@ -228,6 +246,9 @@ func gen(t *rapid.T) Case {
 		default:
 			c.Ops = append(c.Ops, projsim.GenEdit(t, projsim.NoopEdits()))
 		}
+	}
+	if rapid.IntRange(0, 3).Draw(t, "absent") == 3 {
+		c.Absent = rapid.SliceOfN(rapid.IntRange(0, 11), 1, 2).Draw(t, "absentsel")
 	}
 	if rapid.Bool().Draw(t, "ord1") {
 		c.Order1 = rapid.SliceOfN(rapid.IntRange(0, 3), 1, 4).Draw(t, "order1")
